@@ -918,6 +918,11 @@ func (l *lexer) rawToken() int {
 				l.unread()
 				return WORD
 			}
+			if r == ')' && l.cmdSubst == '`' && len(l.stack) == 1 {
+				// only a backquote closes this command substitution
+				l.error(ast.NewPos(l.line, l.col-1), "syntax error: unexpected ')'")
+				return -1
+			}
 			return l.scanOp(r)
 		case '<', '>':
 			// redirection operator
